@@ -67,19 +67,33 @@ func c10Run(c *Ctx) {
 		go func(w int) {
 			defer wg.Done()
 			r := c.Rng.Sub(fmt.Sprintf("w%d", w))
+			srvs := map[string]*Srv{}
+			for _, tr := range []string{"plain", "tls"} {
+				var tc *tls.Config
+				if tr == "tls" {
+					tc = pki.ServerOnly
+				}
+				s, err := startSrv(SrvCfg{TLS: tc}, nil)
+				if err != nil {
+					c.Inconclusive("server start: " + err.Error())
+					return
+				}
+				srvs[tr] = s
+				defer s.StopWithin(patience)
+			}
 			for {
 				i := int(next.Add(1)) - 1
 				if i >= len(cases) {
 					return
 				}
-				c10One(c, pki, cases[i], r, i)
+				c10One(c, pki, srvs, cases[i], r, i)
 			}
 		}(w)
 	}
 	wg.Wait()
 }
 
-func c10One(c *Ctx, pki *PKI, cs c10Case, r *Rand, idx int) {
+func c10One(c *Ctx, pki *PKI, srvs map[string]*Srv, cs c10Case, r *Rand, idx int) {
 	det := map[string]any{"case": cs}
 	var mu sync.Mutex
 	var dispatched []int64 // message IDs seen by any handler (0 for extended: identified by route below)
@@ -108,32 +122,34 @@ func c10One(c *Ctx, pki *PKI, cs c10Case, r *Rand, idx int) {
 	if cs.Transport == "tls" {
 		stc, ctc = pki.ServerOnly, pki.ClientPlain
 	}
-	srv, err := startSrv(SrvCfg{TLS: stc}, func(m *gldap.Mux) {
-		m.Bind(rec("bind"))
-		m.Search(rec("search"))
-		m.Modify(rec("modify"))
-		m.Add(rec("add"))
-		m.Delete(rec("delete"))
-		m.ExtendedOperation(rec("ext-before"), "1.7.1")
-		m.ExtendedOperation(rec("ext-after"), "1.7.2")
-		m.ExtendedOperation(rec("ext-starttls"), gldap.ExtendedOperationStartTLS)
-		m.DefaultRoute(rec("default"))
-		if cs.Route {
-			m.Unbind(func(w *gldap.ResponseWriter, req *gldap.Request) {
-				mu.Lock()
-				unbindRuns++
-				mu.Unlock()
-				if cs.Panics {
-					panic("injected panic in the unbind handler (C10)")
-				}
-			})
-		}
-	})
-	if err != nil {
-		c.Inconclusive("server start: " + err.Error())
+	_ = stc
+	// one long-lived server per worker and transport; every case installs its own mux (routes are in place before the
+	// case's connection is accepted)
+	srv := srvs[cs.Transport]
+	m, _ := gldap.NewMux()
+	m.Bind(rec("bind"))
+	m.Search(rec("search"))
+	m.Modify(rec("modify"))
+	m.Add(rec("add"))
+	m.Delete(rec("delete"))
+	m.ExtendedOperation(rec("ext-before"), "1.7.1")
+	m.ExtendedOperation(rec("ext-after"), "1.7.2")
+	m.ExtendedOperation(rec("ext-starttls"), gldap.ExtendedOperationStartTLS)
+	m.DefaultRoute(rec("default"))
+	if cs.Route {
+		m.Unbind(func(w *gldap.ResponseWriter, req *gldap.Request) {
+			mu.Lock()
+			unbindRuns++
+			mu.Unlock()
+			if cs.Panics {
+				panic("injected panic in the unbind handler (C10)")
+			}
+		})
+	}
+	if err := srv.S.Router(m); err != nil {
+		c.Inconclusive("Router: " + err.Error())
 		return
 	}
-	defer srv.StopWithin(patience)
 	cl, err := dialRaw(srv.Addr, ctc)
 	if err != nil {
 		c.Inconclusive("dial: " + err.Error())
